@@ -45,6 +45,9 @@ TRAIT_CTOR = {
 }
 
 
+OVERLAYS = ('K2b',)
+
+
 def run(chk):
     P = mir.Program("K1")
     chk.use_program(P)
